@@ -294,7 +294,7 @@ def oracle_build():
     return os.path.join(VERIF, 'ocaml', 'oracle')
 
 
-def run_oracle(lines, shards=None, timeout=3600):
+def run_oracle(lines, shards=None, timeout=3600, qtimeout=None):
     """lines: list of query strings (one per line).  Returns list of answer strings."""
     exe = os.path.join(VERIF, 'ocaml', 'oracle')
     if not lines:
@@ -303,7 +303,10 @@ def run_oracle(lines, shards=None, timeout=3600):
     idx = [list(range(i, len(lines), n)) for i in range(n)]
     procs = []
     for ix in idx:
-        pr = subprocess.Popen([exe], stdin=subprocess.PIPE, stdout=subprocess.PIPE, stderr=subprocess.PIPE, text=True)
+        env = dict(os.environ)
+        if qtimeout:
+            env['ORACLE_QUERY_TIMEOUT'] = str(qtimeout)     # seconds per query; a query over the limit is answered 'none'
+        pr = subprocess.Popen([exe], stdin=subprocess.PIPE, stdout=subprocess.PIPE, stderr=subprocess.PIPE, text=True, env=env)
         procs.append(pr)
     import threading
     outs = [None] * n
